@@ -609,20 +609,21 @@ func (l *pipeListener) Close() error   { close(l.done); return nil }
 func (l *pipeListener) Addr() net.Addr { return &net.TCPAddr{IP: net.IPv4(127, 0, 0, 1), Port: 80} }
 
 type env struct {
-	ln         *pipeListener
-	srv        *http.Server
-	cur        *trace
-	last       *captured
-	seen       []*captured // every request the origin received since the caller last cleared it
-	script     []int       // status codes the origin answers next (then 200)
-	clients    map[int]*req.Client
-	reqs       map[int]*req.Request
-	reqCl      map[int]int
-	sinks      []*sink         // by token
-	rootPEM    []string        // by token
-	rootSub    map[string]int  // raw subject -> token
-	serverCert tls.Certificate // self-signed (root token 1): the in-memory TLS peer of the fingerprint scenario
-	asyncSeen  bool            // an asynchronous dump was configured in this program: no byte accounting on the sinks
+	ln          *pipeListener
+	srv         *http.Server
+	cur         *trace
+	last        *captured
+	lastConnect http.Header // headers of the last CONNECT the origin received as a proxy
+	seen        []*captured // every request the origin received since the caller last cleared it
+	script      []int       // status codes the origin answers next (then 200)
+	clients     map[int]*req.Client
+	reqs        map[int]*req.Request
+	reqCl       map[int]int
+	sinks       []*sink         // by token
+	rootPEM     []string        // by token
+	rootSub     map[string]int  // raw subject -> token
+	serverCert  tls.Certificate // self-signed (root token 1): the in-memory TLS peer of the fingerprint scenario
+	asyncSeen   bool            // an asynchronous dump was configured in this program: no byte accounting on the sinks
 }
 
 func (e *env) sinkFor(tok int) io.Writer {
@@ -678,11 +679,22 @@ func newEnv() *env {
 		panic(err)
 	}
 	e.srv = &http.Server{Handler: http.HandlerFunc(func(w http.ResponseWriter, q *http.Request) {
+		if q.Method == http.MethodConnect { // the origin acting as an http proxy: record the CONNECT, refuse the tunnel
+			e.lastConnect = q.Header.Clone()
+			w.WriteHeader(403)
+			return
+		}
 		q.ParseForm()
 		e.last = &captured{path: q.URL.Path, query: q.URL.Query(), header: q.Header.Clone(), form: q.PostForm}
 		e.seen = append(e.seen, e.last)
 		if i := strings.Index(q.URL.Path, "/sc/"); i >= 0 {
 			http.SetCookie(w, &http.Cookie{Name: q.URL.Path[i+4:], Value: "1", Path: "/"})
+		}
+		// digest family: challenge a request that carries no Digest authorization yet
+		if strings.HasSuffix(q.URL.Path, "/digest") && !strings.HasPrefix(q.Header.Get("Authorization"), "Digest ") {
+			w.Header().Set("WWW-Authenticate", `Digest realm="c19", nonce="dcd98b7102dd2f0e8b11d0f600bfb0c093", qop="auth", algorithm=MD5`)
+			w.WriteHeader(401)
+			return
 		}
 		// scripted answers (re-exec family: 503s that make the client retry), 200 otherwise
 		status := 200
